@@ -91,6 +91,8 @@ pub struct R1csCase<G: AffineRepr> {
     pub vcommit: Vec<Option<Vec<G::ScalarField>>>,
     pub vbases: Option<(Vec<G::ScalarField>, Vec<G::ScalarField>)>,
     pub muts: Vec<Mutation<G::ScalarField>>,
+    /// dishonest prover through hook H4: coefficient vectors of the points published as (A_I2, A_O2, S2)
+    pub forge: Option<[Vec<G::ScalarField>; 3]>,
     pub tag: String,
     pub model: bool,
 }
@@ -107,6 +109,7 @@ impl<G: AffineRepr> R1csCase<G> {
             extra: 0,
             ext_seed,
             forced: vec![],
+            forge: None,
             vlabel: b"verif-case",
             vprog: None,
             vcommit: vec![],
@@ -244,7 +247,12 @@ pub fn run_case<G: AffineRepr>(c: &R1csCase<G>, curve: &str, modulus: &str) -> C
     let pc = PedersenGens::<G>::default();
     let bp_p = BulletproofGens::<G>::new(c.cap_p, 1);
     let bp_v = BulletproofGens::<G>::new(c.cap_v, 1);
+    if let Some(f) = &c.forge {
+        let enc = |co: &Vec<F<G>>| { let mut b = vec![]; msm_coeffs(&basis.pts, co).serialize_compressed(&mut b).unwrap(); b };
+        ark_bulletproofs::verif_hooks::set_phase2_override(Some([enc(&f[0]), enc(&f[1]), enc(&f[2])]));
+    }
     let pr = run_prover::<G>(c.label, &c.prog, &c.gate_ov, &pc, &bp_p, c.ext_seed, &c.forced);
+    ark_bulletproofs::verif_hooks::set_phase2_override(None);
     let obs = std::cell::RefCell::new(String::new());
     let id = &c.id;
     let line = |code: u32, toks: Vec<String>| {
@@ -273,6 +281,9 @@ pub fn run_case<G: AffineRepr>(c: &R1csCase<G>, curve: &str, modulus: &str) -> C
     let mut summary = format!("{} {} tag={} prover={}", id, curve, c.tag, pcode);
     if !c.model {
         summary = format!("{} {} nomodel=1 tag={} prover={}", id, curve, c.tag, pcode);
+    }
+    if c.forge.is_some() {
+        summary = format!("{} {} forged=1 tag={} prover={}", id, curve, c.tag, pcode);
     }
     if pr.result.is_err() {
         let _ = writeln!(obs.borrow_mut(), "{} 98 {}", id, pr.panic_msg.replace('\n', " "));
@@ -380,7 +391,15 @@ pub fn run_case<G: AffineRepr>(c: &R1csCase<G>, curve: &str, modulus: &str) -> C
             let _ = writeln!(coq, "  (Some ({}, {}))", zlist(b), zlist(bb));
         }
     }
-    let ms: Vec<String> = c.muts.iter().map(|m| m.coq()).collect();
+    let mut ms: Vec<String> = vec![];
+    if let Some(f) = &c.forge {
+        // the model's prover is honest; the published points are put in place on the model's proof object
+        for (j, co) in f.iter().enumerate() {
+            ms.push(Mutation::<F<G>>::PointZero((0, 3 + j)).coq());
+            ms.push(Mutation::PointAdd((0, 3 + j), co.clone()).coq());
+        }
+    }
+    ms.extend(c.muts.iter().map(|m| m.coq()));
     let _ = writeln!(coq, "  [{}].", ms.join("; "));
     let obs = obs.into_inner();
     CaseOut { coq, obs, summary, vproof: out_vproof, commitments: out_commitments, chal_v, verdict: out_verdict }
@@ -400,7 +419,10 @@ pub fn gen_cases<G: AffineRepr>(seed: u64, tier: &str, stream: &str, curve_idx: 
         ("mutfields", false) => 36,
         ("mutfields", true) => 72,
         ("violate", false) => 16,
-        ("statement", false) => 28,
+        ("statement", false) => 32,
+        ("forge", false) => 16,
+        ("mutsmall", false) => 32,
+        ("mutsmall", true) => 64,
         ("statement", true) => 112,
         (_, false) => 8,
         (_, true) => 40,
@@ -538,7 +560,7 @@ pub fn gen_cases<G: AffineRepr>(seed: u64, tier: &str, stream: &str, curve_idx: 
             }
             // statement / context deviations on the verifier side (C05): the proof is honest, the verifier's statement is not the prover's
             "statement" => {
-                let kinds = 14;
+                let kinds = 16;
                 let kind = k % kinds;
                 let sh = Shape { commits: 2 + rng.gen_range(0..2), ops1: 1 + rng.gen_range(0..3), closures: if k % 3 == 0 { 1 } else { 0 }, ops2: 1 + rng.gen_range(0..3), allow_missing: false };
                 let mut g = gen_program::<F<G>>(&mut rng, &sh);
@@ -588,6 +610,13 @@ pub fn gen_cases<G: AffineRepr>(seed: u64, tier: &str, stream: &str, curve_idx: 
                     }
                     11 => { let mut b = vec![F::<G>::zero(); dim]; b[0] = F::<G>::from(1u64); let mut bb = vec![F::<G>::zero(); dim]; bb[1] = F::<G>::from(1u64); bb[2] = F::<G>::from(1u64); c.vbases = Some((b, bb)); name = "different-blinding-base".into(); }
                     12 => { let mut b = vec![F::<G>::zero(); dim]; b[0] = F::<G>::from(1u64); b[2 + n] = F::<G>::from(1u64); let mut bb = vec![F::<G>::zero(); dim]; bb[1] = F::<G>::from(1u64); c.vbases = Some((b, bb)); name = "different-value-base".into(); }
+                    13 | 14 => {
+                    // a commitment no constraint refers to (bound as context only), replaced by its negation / by another opening
+                        c.prog.push(COp::Commit(F::<G>::from(9u64), F::<G>::from(11u64)));
+                        vprog.push(COp::Commit(F::<G>::from(9u64), F::<G>::from(11u64)));
+                        if kind == 13 { vcommit.push(Some(coeffs(-F::<G>::from(9u64), -F::<G>::from(11u64)))); name = "negated-unused-commitment".into(); }
+                        else { vcommit.push(Some(coeffs(F::<G>::from(9u64), F::<G>::from(12u64)))); name = "different-unused-commitment".into(); }
+                    }
                     _ => { name = "none".into(); }
                 }
                 if kind == 4 {
@@ -598,6 +627,49 @@ pub fn gen_cases<G: AffineRepr>(seed: u64, tier: &str, stream: &str, curve_idx: 
                 }
                 c.vcommit = vcommit;
                 c.tag = format!("statement {} n1={} n2={} m={}", name, g.n1, g.n2, ncom);
+                out.push(c);
+            }
+            // dishonest prover (hook H4): the proving procedure publishes arbitrary points as (A_I2, A_O2, S2)
+            "forge" => {
+                let sh = Shape { commits: rng.gen_range(0..3), ops1: 1 + rng.gen_range(0..3), closures: if k % 2 == 0 { 0 } else { 1 }, ops2: 1 + rng.gen_range(0..3), allow_missing: false };
+                let g = gen_program::<F<G>>(&mut rng, &sh);
+                let n = (g.n1 + g.n2).next_power_of_two().max(1);
+                let dim = 2 + 2 * n;
+                let mut c = R1csCase::plain(id, g.prog, n, n, rng.gen());
+                let mut mk = |rng: &mut ChaChaRng, nonzero: bool| { let mut co = vec![F::<G>::zero(); dim]; if nonzero { co[rng.gen_range(0..dim)] = F::<G>::rand(rng); co[rng.gen_range(0..dim)] += F::<G>::from(1u64); } co };
+                let which = (k / 2) % 4;
+                let f = [mk(&mut rng, which == 0 || which == 3), mk(&mut rng, which == 1 || which == 3), mk(&mut rng, which == 2 || which == 3)];
+                c.forge = Some(f);
+                c.tag = format!("forge which={} n1={} n2={}", which, g.n1, g.n2);
+                out.push(c);
+            }
+            // smallest circuits (no inner-product rounds: one gate or none): every field perturbed once
+            "mutsmall" => {
+                let gates = k % 2;
+                let field = (k / 2) % 16;   // 11 points, 5 scalars
+                let sh = Shape { commits: 1 + rng.gen_range(0..2), ops1: 0, closures: 0, ops2: 0, allow_missing: false };
+                let mut g = gen_program::<F<G>>(&mut rng, &sh);
+                let vals: Vec<F<G>> = g.prog.iter().filter_map(|o| if let COp::Commit(v, _) = o { Some(*v) } else { None }).collect();
+                if gates == 1 {
+                    // one gate tied to the committed value: l * r = o with l = V0
+                    let rr = F::<G>::rand(&mut rng);
+                    g.prog.push(COp::Mul(vec![(V::Committed(0), Sx::C(F::<G>::from(1u64)))], vec![(V::One, Sx::C(rr))]));
+                    g.prog.push(COp::Constrain(vec![(V::Out(0), Sx::C(F::<G>::from(1u64))), (V::One, Sx::C(-(vals[0] * rr)))]));
+                } else {
+                    let c1 = F::<G>::rand(&mut rng);
+                    g.prog.push(COp::Constrain(vec![(V::Committed(0), Sx::C(c1)), (V::One, Sx::C(-(c1 * vals[0])))]));
+                }
+                let dim = 4;
+                let mut c = R1csCase::plain(id, g.prog, 1, 1, rng.gen());
+                let m = if field < 11 {
+                    let mut co = vec![F::<G>::zero(); dim];
+                    co[rng.gen_range(0..dim)] = F::<G>::rand(&mut rng);
+                    Mutation::PointAdd((0, field), co)
+                } else {
+                    Mutation::ScalarAdd(field - 11, if k % 4 < 2 { F::<G>::from(1u64) } else { -F::<G>::from(1u64) })
+                };
+                c.tag = format!("mutsmall field={} gates={}", field, gates);
+                c.muts = vec![m];
                 out.push(c);
             }
             // capacity grid (C17): fixed program per (n1, n2), every capacity pair
